@@ -241,7 +241,7 @@ func c03Hook(c *Ctx) {
 			}
 			enumerate(classes, l, func(seq []gen.Class) {
 				slot++
-				if slot%c.NBatch != c.Batch {
+				if slot%c.MNBatch != c.MBatch {
 					return
 				}
 				run(op, path, seq)
@@ -333,7 +333,7 @@ func c03Loopback(c *Ctx) {
 			}
 			enumerate(classesFor(op, path, true), l, func(seq []gen.Class) {
 				slot++
-				if slot%c.NBatch != c.Batch {
+				if slot%c.MNBatch != c.MBatch {
 					return
 				}
 				no++
